@@ -46,6 +46,9 @@ class Spec:
 
     def binary(self):
         e = ENGINES[self.engine]
+        if e["package"] is None:
+            # script engine (progcheck): an executable /verif/<workspace>/<workspace> that builds what it needs itself
+            return os.path.join(vcommon.VERIF, e["workspace"], e["workspace"])
         d = vcommon.build(e["workspace"], e["package"])
         return os.path.join(d, e["package"])
 
@@ -508,6 +511,47 @@ reg("C42", Spec(
     "DESIGN.md §4 C42, /verif/loomcheck/NOTES.md",
     "all interleavings with ≤ bound preemptions and ≤ tick budget per harness; evaluations = loom iterations; distinct = distinct observed outcomes",
     LOOM_ASSUME, floor=(10000, 8), timeout=(300, 7200), mem_gb=8))
+
+
+# ---------------------------------------------------------------------------------------------------------
+# E5 progcheck
+# ---------------------------------------------------------------------------------------------------------
+PROG_NOTE = ("Trusted: rustc/cargo, the python reference (XTypes 1.3 member-id rules incl. MD5 hashid via hashlib, README attribute "
+             "language), the attribution of rustc diagnostics to declarations by file name (un-attributable errors are machinery "
+             "errors), the public DynamicType accessors used to dump the description. Every generated module prints a hash of its "
+             "declaration text, a mismatch (stale binary) is a machinery error. See /verif/progcheck/NOTES.md for the grammar, the "
+             "excluded corners (probed, reported under extra.excluded_probes) and accepted alternatives.")
+
+reg("C40", Spec(
+    "progcheck", "exploration",
+    "All declarations of a grammar of #[derive(DdsType)] types (quick 594: structs with 1-3 members over 14 member types x 4 "
+    "extensibilities x all legal attribute subsets {key, optional, id, hashid, non_serialized, default_value}, split attributes, "
+    "container attributes, enums x bit_bound x discriminant shapes, unions x discriminator types x case/default shapes; thorough "
+    "4280 incl. tuple structs and 24 member types) are compiled against /repo's dust_dds in one generated crate; each module dumps "
+    "the published DynamicType through the public accessors and round-trips every value of a boundary value lattice through "
+    "create_dynamic_sample/create_sample under catch_unwind. Compared with a python reference description.",
+    PROG_NOTE, "bounded-exhaustive enumeration of programs (type declarations x value lattice) against a reference description",
+    "DESIGN.md §4 C40, /verif/progcheck/NOTES.md",
+    "every declaration of the grammar, every value of the per-declaration value product; evaluations = description + round-trip checks",
+    ["grammar bound: <= 3 members, listed member types and attribute subsets; NaN excluded (PartialEq)",
+     "illegal combinations excluded (NOTES.md): key+optional, id+hashid, Option<T> without optional, ...",
+     "automatic id after a hashid member: XTypes numbering or the derive's documented-in-code numbering both accepted"],
+    shards=(1, 1), timeout=(600, 3600), mem_gb=24, floor=(1000, 20)))
+
+reg("C41", Spec(
+    "progcheck", "exploration",
+    "All IDL specifications of a grammar (quick 319, thorough 705: structs x extensibility x 12 annotation sets, 40 member types "
+    "incl. all primitive spellings, strings, sequences, arrays, references, modules, multi-declarators, enums x bit_bound, unions "
+    "x 10 switch types, typedef chains, inheritance, constants) are compiled by dust_dds_gen::compile_idl in the build script of a "
+    "generated crate (catch_unwind per file), the output is compiled against dust_dds, and each type's published description "
+    "(names, member kinds, bounds, keys, ids, extensibility, enumerator values, union labels) is compared with a python "
+    "reference computed from the IDL AST.",
+    PROG_NOTE, "bounded-exhaustive enumeration of programs (IDL specifications) against a reference description",
+    "DESIGN.md §4 C41, /verif/progcheck/NOTES.md",
+    "every specification of the grammar; evaluations = specifications checked",
+    ["grammar bound per NOTES.md; excluded IDL corners (map, fixed, long double, any, bitset, bitmask, ...) are probed and listed, never findings",
+     "octet reported as UINT8 accepted; un-annotated types are Final (dust-dds mapping) not compared"],
+    shards=(1, 1), timeout=(600, 3600), mem_gb=24, floor=(300, 20)))
 
 
 # ---------------------------------------------------------------------------------------------------------
